@@ -5,6 +5,7 @@
    identities of the environment strictly decreases at every new expression. *)
 From Verif Require Import Base.Bytes Model.Chain Model.GoText Model.Envelope Model.Eval
   Proofs.EvalTotalBase Proofs.EvalTotalInv Proofs.EvalTotalOrder Proofs.EvalTotalSyntax Proofs.EvalTotalFail.
+From Verif Require Proofs.RefSem2Depth.
 From Coq Require Import Lia Sorting.Permutation.
 
 (* ---------------- counting ---------------- *)
@@ -143,7 +144,7 @@ Proof.
   induction ps as [|[text [p|]] r IH]; intros H acc unk sec.
   - rewrite interp_go_nil. apply safe_ret.
   - rewrite interp_go_ref. apply safe_bind; [apply (H text p); left; reflexivity|]. intro pv.
-    destruct (to_string big_fuel pv) as [[s0 u0] sc]. apply IH. intros t q Hin. apply (H t q). right. exact Hin.
+    destruct (to_string (ts_need pv) pv) as [[s0 u0] sc]. apply IH. intros t q Hin. apply (H t q). right. exact Hin.
   - rewrite interp_go_text. apply IH. intros t q Hin. apply (H t q). right. exact Hin.
 Qed.
 
@@ -238,12 +239,11 @@ Proof.
     apply Hwk; [reflexivity|]. cbn [length sp]. lia.
 Qed.
 
+(* the [None] branch of fn::open's export is dead because [export_t] is total (it used to be dead only because
+   contains_unknowns answered `true` when its export ran out of fuel) *)
 Lemma dead_export iv ok (b : bool) :
-  negb ok || contains_unknowns iv || b = false -> export big_fuel iv = None -> False.
-Proof.
-  unfold contains_unknowns. intros H1 H2. rewrite H2 in H1.
-  rewrite orb_true_r in H1. discriminate H1.
-Qed.
+  negb ok || contains_unknowns iv || b = false -> export_t iv = None -> False.
+Proof. intros _ H. exact (RefSem2Depth.export_t_not_none iv H). Qed.
 
 Lemma repr_body_safe E u ee et ea x xbase id :
   no_json x = true ->
